@@ -190,6 +190,80 @@ def _fields_reaching_family(fx, key, tr, family):
     return {fld for (pi, fld) in _reaching(fx, key, tr, family) if pi == 1 and fld}
 
 
+MUST_TRAITS = {"scc_core_lang::traits::uniquify::Uniquify", "scc_core_lang::traits::substitution::Subst", "scc_core_lang::traits::substitution::SubstVar",
+               "axcut::traits::substitution::Subst", "axcut::traits::free_vars::FreeVars", "scc_core_lang::traits::focus::Focusing"}
+
+
+def _skipping_path(fx, key, tr, family, field):
+    """a path from the entry of the traversal method to its return on which the field never reaches the traversal family although
+    nothing on the path depends on the field itself (a test of the field's own shape - `if let Some(x) = self.f`, a loop over it -
+    legitimately decides whether there is anything to visit).  Returns the line of the return reached, or None."""
+    fn = Fn(fx.fns[key])
+    f = fx.fns[key]
+    flow = Flow(fn, extra_pass=lambda t: t.get("callee_name") in STD_PASS and (t.get("callee") or "").startswith(("core::", "alloc::", "std::")))
+    fam_closures = _closure_family(fx, key, family)
+
+    def from_field(operand, d=0):
+        r = op_root(operand)
+        if r is None:
+            return False
+        for o in flow.origins(r, tuple(place_fields(operand["pl"]))):
+            if o[0] == "arg" and o[1] == 1 and o[2] and o[2][0] == field:
+                return True
+            if o[0] == "call" and d < 4:
+                tc = fn.term(o[1])
+                k3 = tc.get("resolved_key") or (tc.get("callee_key") if not tc.get("callee_trait") else None)
+                srcs = ret_param_sources(fx, k3) if k3 in fx.fns else None
+                for pi in (sorted(srcs) if srcs else [1]):
+                    if pi - 1 < len(tc["args"]) and tc["args"][pi - 1].get("k") in ("copy", "move") and from_field(tc["args"][pi - 1], d + 1):
+                        return True
+        return False
+    visit = set()       # blocks in which the field is handed to the family
+    for bi, t in fn.calls():
+        c = t.get("callee") or ""
+        in_ws = c.split("::")[0] in fx.crates
+        fam = (t.get("callee_trait") == tr) or (t.get("callee_name") in family and in_ws)
+        has_closure = any((a.get("k") in ("copy", "move") and _is_fam_closure(flow, a, fam_closures)) or
+                          (a.get("k") == "const" and a.get("closure") in fam_closures) for a in t["args"])
+        helper = False
+        k2 = t.get("resolved_key") or (t.get("callee_key") if not t.get("callee_trait") else None)
+        if not fam and in_ws and k2 in fx.fns and "{closure" not in k2:
+            hp = {pi for (pi, _f) in _reaching(fx, k2, tr, family, 1)}
+            helper = any(pi - 1 < len(t["args"]) and from_field(t["args"][pi - 1]) for pi in hp)
+        if helper or ((fam or (has_closure and (t.get("callee_name") in ITER_CONSUMERS or in_ws or t.get("callee_name") == "new"))) and any(from_field(a) for a in t["args"])):
+            visit.add(bi)
+    for bi, si, s_ in fn.stmts():
+        rv = s_["rv"]
+        if rv["k"] == "agg" and rv.get("closure") in fam_closures and any(from_field(o) for o in rv["ops"]):
+            visit.add(bi)
+    if not visit:
+        return None         # the may-rule reports a field that is never visited
+    # switches that depend on the field itself end the search: they decide whether there is anything to visit
+    own = set()
+    for b in fn.reach:
+        t = f["blocks"][b]["term"]
+        if t["k"] == "switch" and isinstance(t.get("discr"), dict) and t["discr"].get("pl"):
+            if from_field(t["discr"]):
+                own.add(b)
+            else:
+                for d in fn.defs().get(t["discr"]["pl"]["l"], []):
+                    rv = d.get("rv") or {}
+                    if rv.get("k") == "discr" and rv.get("pl") and from_field({"k": "copy", "pl": rv["pl"]}):
+                        own.add(b)
+                    if d["kind"] == "call" and d["term"]["args"] and from_field(d["term"]["args"][0]) and d["term"].get("callee_name") in ("is_empty", "is_some", "is_none", "len", "next", "pop", "pop_front"):
+                        own.add(b)
+    seen, work = set(), [0]
+    while work:
+        x = work.pop()
+        if x in seen or x in visit or x in own or x not in fn.reach:
+            continue
+        seen.add(x)
+        if f["blocks"][x]["term"]["k"] == "return":
+            return (f["blocks"][x]["term"].get("sp") or f["sp"]).get("line")
+        work.extend(fn.succ[x])
+    return None
+
+
 def rule_trav(traits=None, name="R-TRAV"):
     def rule(ctx):
         fx = ctx.fx
@@ -246,7 +320,17 @@ def rule_trav(traits=None, name="R-TRAV"):
                     fullkey = "%s|%s|%s.%s" % (tr, adt, v["name"], fld["name"])
                     mentioned = (owner, fld["name"]) in ment
                     strong = (tr in MENTION_ONLY) or is_enum or (fld["name"] in reached)
-                    if mentioned and strong:
+                    skip_line = None
+                    if mentioned and strong and tr in MUST_TRAITS and not is_enum and fullkey not in rows:
+                        for mk in mkeys:
+                            skip_line = skip_line or _skipping_path(fx, mk, tr, family, fld["name"])
+                    if skip_line is not None:
+                        res.inst(fullkey + "@every-path", f["sp"]["file"], f["sp"]["line"], "violation")
+                        res.violate(fullkey + "@every-path", "`%s::%s` for %s hands field `%s` to the recursive %s call on some paths only: there is a path to the "
+                                    "return (line %s) that skips it although nothing on that path looks at the field itself - on that path the subterm is not traversed" %
+                                    (tr.split("::")[-1], methods[0], imp["self"].split("::")[-1], fld["name"], "/".join(sorted(family)), skip_line),
+                                    f["sp"]["file"], f["sp"]["line"])
+                    elif mentioned and strong:
                         res.inst(fullkey, f["sp"]["file"], f["sp"]["line"], "ok")
                     elif fullkey in rows:
                         used_rows.add(fullkey)
